@@ -760,6 +760,50 @@ def infinite_step(rng, doc):
     return True
 
 
+@op("numbers-keep-their-digits", "keep")
+def high_precision(rng, doc):
+    """a Decimal-valued field given with more digits than the default decimal context keeps (28) or than a double
+    holds: the decoder must carry the number as written"""
+    spots = []
+    for st in steps(doc):
+        h = st.get("hostRequirements")
+        if isinstance(h, dict):
+            for a in L(h.get("amounts")):
+                if isinstance(a, dict):
+                    spots += [(a, k) for k in ("min", "max") if a.get(k) is not None]
+        ps = st.get("parameterSpace")
+        if isinstance(ps, dict):
+            for tp in L(ps.get("taskParameterDefinitions")):
+                if isinstance(tp, dict) and tp.get("type") == "FLOAT" and isinstance(tp.get("range"), list) and tp["range"]:
+                    spots.append((tp["range"], rng.randrange(len(tp["range"]))))
+    for p in job_params(doc, types=("FLOAT",)):
+        spots += [(p, k) for k in ("minValue", "maxValue", "default") if p.get(k) is not None]
+    if not spots:
+        return False
+    holder, key = rng.choice(spots)
+    old = holder[key]
+    try:
+        from decimal import Decimal
+        base = Decimal(str(old))
+    except Exception:  # noqa: BLE001
+        return False
+    if not base.is_finite():
+        return False
+    tail = "".join(rng.choice("0123456789") for _ in range(rng.choice([29, 34, 40]))) + "1"
+    k = rng.random()
+    if k < 0.5:
+        # same leading value, a long fractional tail (only grows the magnitude: bounds written elsewhere may now be
+        # violated — then both sides reject)
+        txt = str(base)
+        txt = (txt if "." in txt and "E" not in txt.upper() else str(int(base))) 
+        holder[key] = (txt + ("" if "." in txt else ".") + tail) if "E" not in txt.upper() else old
+    elif k < 0.8:
+        holder[key] = int(("-" if base < 0 else "") + str(abs(int(base))) + tail) if rng.random() < 0.5 else ("-" if base < 0 else "") + str(abs(int(base))) + tail
+    else:
+        holder[key] = ("-" if base < 0 else "") + "0." + tail
+    return True
+
+
 NOT_JSON_OPS = {"set_for_array"}      # their result is no JSON document: only for harnesses that say so (not_json=True)
 
 
